@@ -317,6 +317,17 @@ Example C16_example_relative_target :
   /\ (let e := export_model o root_jobs KDir PNone in eo_exn e = None /\ eo_map e = [q "a/1"; q "a/2"]).
 Proof. exact rel_target_example. Qed.
 
+(* a job that holds a nested signac project (state point files three levels down) and a bare
+   x/y/signac_statepoint.json: nothing below a recognised job becomes a job of its own, for every kind *)
+Example C16_example_nested_project :
+  forall k, In k [KDir; KZip; KTar] ->
+  let e := export_model orc_nest [j_nest; j_a2] k PNone in
+  eo_exn e = None
+  /\ let i := import_model orc_nest SchNone (eo_art e) (dst_init []) in
+     io_exn i = None /\ fs_eqb (io_dst i) (expected_dst [] [j_nest; j_a2]) = true
+     /\ List.length (fs_children WS (io_dst i)) = 2%nat.
+Proof. exact nested_project_example. Qed.
+
 (* ':bool' fields read text exactly as _convert_bool does *)
 Example C16_example_bool_spellings :
   List.map conv_bool [q "True"; q "true"; q "TRUE"; q "tRuE"; q "1"; q "yes"; q "no"; q "f"; q "00"]
